@@ -466,6 +466,72 @@ fn closure_creation_templates(rep: &mut Report) {
     }
 }
 
+/// C06: names are whole identifiers, case-sensitive, of any length: pairs of names an implementation could confuse (case,
+/// a trailing underscore or digit, a keyword as a prefix, a long common prefix) bound in the same and in nested scopes, as
+/// locals, parameters, captured names, struct fields and module members
+fn name_shape_templates(rep: &mut Report) {
+    let long_a = format!("{}a", "n".repeat(63));
+    let long_b = format!("{}b", "n".repeat(63));
+    let pairs: Vec<(&str, &str)> = vec![
+        ("x", "X"), ("ab", "aB"), ("Ab", "AB"), ("a", "a_"), ("a", "_a"), ("a1", "a01"), ("a1", "a11"), ("_", "__"), ("_1", "_2"), ("iffy", "iff"), ("truex", "truey"), ("mutable", "mutably"),
+        ("returned", "returns"), ("loopx", "loop_"), ("structa", "structb"), ("breaker", "breaks"), ("continued", "continues"), ("intx", "int_"), ("anyx", "any_"), ("std_", "stdx"), ("modx", "mody"),
+        ("forx", "fory"), ("whiles", "whilst"), ("matchx", "matchy"), ("elsex", "elsey"), ("falsey", "falsex"), ("k", "K"), ("name", "Name"), ("userId", "userid"), ("int", "Int"), ("if_", "If"),
+        (&long_a, &long_b),
+    ];
+    // a name that begins with a keyword, at the start of a statement (where the statement rules for keywords are tried first)
+    for n in ["returned", "returns", "return_", "return1", "breaker", "break_", "break1", "continued", "continue_", "loopx", "loop_", "loops", "whiles", "while_", "forx", "for_", "iffy", "if_", "matchx", "match_", "modx", "mod_", "mutable", "mut_", "structx", "struct_", "importx", "import_", "elsex", "else_", "truex", "true_", "falsey", "false_", "inx", "in_", "stdx", "anyx"] {
+        let cases = [
+            (format!("{n} := mut 0; i := mut 0; while *i < 3 {{ {n} += 1; i += 1; }} (*{n}, *i)"), "(3, 3)"),
+            (format!("f := () -> int {{ {n} := 5; {n}2 := {n} + 1; return {n}2 }}; f()"), "6"),
+            (format!("{n} := mut 1; {n} = 7; {n} *= 2; *{n}"), "14"),
+            (format!("{n} := [1, 2]; {n}[1]"), "2"),
+            (format!("{n} := (x: int) -> int {{ return x + 1 }}; i := mut 0; loop {{ i += 1; {n}(1); if *i > 2 {{ break }} }} ({n}(4), *i)"), "(5, 3)"),
+        ];
+        for (src, want) in cases {
+            rep.evaluations += 1;
+            rep.count("name-shape-templates");
+            let run = run_real(&src, FUEL);
+            let got = match &run.outcome {
+                Outcome::Value(v) => canon(v),
+                other => other.tag(),
+            };
+            if got.starts_with("panic:") && got != "panic:Panic" {
+                rep.inconclusive("template:resource-or-fuel");
+                continue;
+            }
+            if got != want {
+                rep.violation(&format!("c06:name-shape-template:statement-start:{n}"), &format!("`{}` gave {got}, expected {want} (names are whole identifiers: `{n}` is not a keyword)", truncate(&src, 300)), "diff", &format!("#template {want}\n{src}\n"));
+            }
+        }
+    }
+    for (n1, n2) in pairs {
+        let cases = [
+            (format!("{n1} := 1; {n2} := 2; f := () -> (int, int) {{ return ({n1}, {n2}) }}; r := {{ {n1} := 10; ({n1}, {n2}, f()) }}; ({n1}, {n2}, r)"), "(1, 2, (10, 2, (1, 2)))"),
+            (format!("{n2} := 2; {n1} := 1; g := ({n2}: int) -> (int, int) {{ return ({n1}, {n2}) }}; h := ({n1}: int) -> (int, int) {{ return ({n1}, {n2}) }}; (g(20), h(10))"), "((1, 20), (10, 2))"),
+            (format!("s := struct{{{n1} := 1, {n2} := 2}}; t := struct{{{n2} := 20, {n1} := 10}}; (s.{n1}, s.{n2}, t.{n1}, t.{n2}, s == struct{{{n2} := 2, {n1} := 1}})"), "(1, 2, 10, 20, true)"),
+            (format!("m := mod {{ {n1} := 1; {n2} := 2; both := () -> (int, int) {{ return ({n1}, {n2}) }} }}; {n1} := 100; (m.{n1}, m.{n2}, m.both(), {n1})"), "(1, 2, (1, 2), 100)"),
+            (format!("{n1} := mut 1; {n2} := mut 2; {n1} += 10; {n2} *= 10; c := () -> (int, int) {{ return (*{n1}, *{n2}) }}; {n1} = 5; c()"), "(5, 20)"),
+            (format!("mk := ({n1}: int) -> (int) -> (int, int) {{ return ({n2}: int) -> (int, int) {{ return ({n1}, {n2}) }} }}; a := mk(1); b := mk(3); (a(2), b(4), a(5))"), "((1, 2), (3, 4), (1, 5))"),
+        ];
+        for (src, want) in cases {
+            rep.evaluations += 1;
+            rep.count("name-shape-templates");
+            let run = run_real(&src, FUEL);
+            let got = match &run.outcome {
+                Outcome::Value(v) => canon(v),
+                other => other.tag(),
+            };
+            if got.starts_with("panic:") && got != "panic:Panic" {
+                rep.inconclusive("template:resource-or-fuel");
+                continue;
+            }
+            if got != want {
+                rep.violation(&format!("c06:name-shape-template:{}", truncate(&format!("{n1}/{n2}"), 40)), &format!("`{}` gave {got}, expected {want} (names are whole, case-sensitive identifiers)", truncate(&src, 300)), "diff", &format!("#template {want}\n{src}\n"));
+            }
+        }
+    }
+}
+
 /// C04: hand-written twins around *identity and freshness*, which value-level generated programs rarely compare: a
 /// function literal, cell, iterator or container built from constants is still built anew by every evaluation, with
 /// constants visible (`K` -> the literal) or hidden (`K` -> `hi(..)`) alike
@@ -610,6 +676,7 @@ pub fn run(cfg: &Cfg, rep: &mut Report, spec: &Spec) {
     }
     if spec.prop == "C06" && cfg.shard == 0 {
         closure_creation_templates(rep);
+        name_shape_templates(rep);
     }
     if spec.prop == "C04" && cfg.shard == 0 {
         identity_twin_templates(rep);
